@@ -1673,7 +1673,8 @@ def declare_rules(ck):
             "(masks of patch / region / interface parts contain interior facets)", min_instances=8)
     ck.rule("E10.target-wrapper-choice", "TargetSetRefineParentWrapper<Parent>::fill_target_sets (StandardRefinery<MeshPart>): decision table over 'the coarse part has a topology' (coarse_ish != nullptr): "
             "the SimpleTargetRefineWrapper, which ignores the part's topology, is reached ONLY on paths where the part has none; with a topology the orientation-aware TargetRefineWrapper is "
-            "used or the input is refused (XASSERT) - the part's own index sets are refined in the part's orientation, so simply refined targets map refined sub-entities onto the wrong "
+            "used or the input is refused (XASSERT); every path that returns normally passes one of the two refiners (the refined sets are sized for every dimension by the constructor), "
+            "an early return without refinement only under a condition that establishes zero entities of EVERY dimension - the part's own index sets are refined in the part's orientation, so simply refined targets map refined sub-entities onto the wrong "
             "children of the right parent entity", min_instances=12)
     ck.rule("E10.transfer-siblings", "kernel/geometry classes: move constructor, move assignment, clone(other) and clone() of one class transfer the same data members - a member transferred by one sibling is "
             "transferred or re-established by every other (otherwise the destination keeps a stale member, e.g. the facet neighbours of the mesh that was overwritten)", min_instances=137)
@@ -3059,6 +3060,90 @@ def check_target_wrapper_choice(ck, facts):
                 prob.append("TargetRefineWrapper::refine (line %s) is reached on a path on which %s may be null" % (c.get("l"), ptrs[0]["n"]))
         if not aware:
             prob.append("the orientation-aware TargetRefineWrapper::refine is never called")
+        # sizing pass and filling pass agree: the refined target sets are sized from the refinement formulas for every dimension,
+        # so every path that returns normally passes one of the refiners; a return without refinement is admissible only under a
+        # condition that establishes that the part has no entities of ANY dimension
+        is_refine = lambda x: featlib.is_call(x) and re.search(r"Intern::(Simple)?TargetRefineWrapper<.*>::refine$", x.get("callee", "")) is not None
+        cfg = f.cfg
+        inc = None
+        if cfg is None:
+            inc = "no control flow graph"
+        else:
+            okp, _ = cfg.must_pass(is_refine)
+            if not okp:
+                dim = norm_c10.shape_dim(f.cls)
+                skips = []
+
+                def find_skips(st):
+                    if st is None:
+                        return
+                    if st.get("k") == "Block":
+                        for x in st.get("s", []):
+                            if any(is_refine(y) for y in featlib.walk(x)) and x.get("k") != "If":
+                                return
+                            find_skips(x)
+                        return
+                    if st.get("k") == "If":
+                        for br, pol in (("then", True), ("else", False)):
+                            b_ = st.get(br)
+                            if b_ is not None and norm_c10.DefEvents._exits(b_) and not any(is_refine(y) for y in featlib.walk(b_)):
+                                skips.append((st, pol))
+                            elif b_ is not None:
+                                find_skips(b_)
+                find_skips(f.body)
+                if not skips:
+                    inc = "a path returns without calling a target refiner, but the early return was not located"
+                for st, pol in skips:
+                    # dimensions whose count is established to be zero when the skipping branch is taken
+                    zero = set()
+                    tw_inits = local_inits(f)
+                    depth_ = [0]
+
+                    def conj(c, pol_):
+                        c = norm_c10.strip_casts(c)
+                        if c is None:
+                            return True
+                        if c.get("k") == "Ref" and c.get("dk") == "local" and c.get("d") in tw_inits and depth_[0] < 6:
+                            depth_[0] += 1
+                            return conj(tw_inits[c["d"]], pol_)          # a named bool holding the test
+                        if c.get("k") == "Un" and c.get("op") == "!":
+                            return conj(c["e"], not pol_)
+                        if c.get("k") == "Bin" and c.get("op") in ("&&", "||"):
+                            if (c["op"] == "&&") == pol_:
+                                a_, b2 = conj(c["lhs"], pol_), conj(c["rhs"], pol_)
+                                return a_ and b2
+                            return False
+                        if c.get("k") == "Bin" and c.get("op") in ("==", "!=", "<", ">", "<=", ">="):
+                            for a_, b2, op in ((c["lhs"], c["rhs"], c["op"]), (c["rhs"], c["lhs"], {"<": ">", ">": "<", "<=": ">=", ">=": "<="}.get(c["op"], c["op"]))):
+                                a_ = norm_c10.strip_casts(a_)
+                                v = norm_c10._cint(b2)
+                                if a_ is not None and a_.get("k") == "MCall" and a_.get("n") == "get_num_entities" and v is not None:
+                                    d_ = norm_c10._cint(a_["a"][0]) if a_.get("a") else None
+                                    if d_ is None:
+                                        ta = norm_c10.trailing_targs((norm_c10.strip_casts(a_.get("obj")) or {}).get("cfull"))
+                                        d_ = ta[0] if ta else None
+                                    truth = {"==": lambda x: x == v, "!=": lambda x: x != v, "<": lambda x: x < v, ">": lambda x: x > v, "<=": lambda x: x <= v, ">=": lambda x: x >= v}[op]
+                                    holds0, holdspos = truth(0), {truth(x) for x in (1, 2, 1000)}
+                                    if d_ is not None and len(holdspos) == 1 and holds0 != list(holdspos)[0] and (holds0 == pol_):
+                                        zero.add(d_)
+                                        return True
+                                    return False
+                        return False
+                    understood = conj(st["c"], pol)
+                    counts = bool(zero) or any(x.get("k") == "MCall" and x.get("n") == "get_num_entities" for x in featlib.walk(st["c"]))
+                    if dim is not None and zero >= set(range(dim + 1)) and understood:
+                        continue
+                    if counts and zero and dim is not None:
+                        missing = sorted(set(range(dim + 1)) - zero)
+                        prob.append("the early return at line %s skips the refinement of ALL target sets under the condition `%s`, which only establishes that the part has no entities of "
+                                    "dimension %s: the refined target sets of dimension %s are still sized from the refinement formulas (StandardRefinery<MeshPart> constructor) and stay "
+                                    "unfilled (all zero) for a part without %s-dimensional entities, e.g. a cells-only or facets-only part" % (
+                                        st.get("l"), featlib.render(st["c"])[:90], sorted(zero), missing, sorted(zero)))
+                    else:
+                        inc = "the return at line %s skips the target refiners under the condition `%s`, which this rule does not understand" % (st.get("l"), featlib.render(st["c"])[:90])
+        if inc and not prob:
+            ck.incomplete(R, "%s: %s" % (key, inc))
+            continue
         ck.ob(R, key, not prob, "; ".join(prob[:2]) or "simple refiner only where %s == nullptr, orientation-aware refiner only where it is non-null" % ptrs[0]["n"], f.file, (simple or aware or [({"l": f.line}, 0)])[0][0].get("l"))
 
 
